@@ -4,7 +4,7 @@ from verif.core import Infra
 META = dict(
     technique="TLC exploration of CtxFresh.tla (RequestCtx life cycle over pooled objects: acquire, parse, handler dirtying, timeout replacement, reset, release, late handler) with the freshness invariants; TLC-printed request histories replayed on a real Server whose handler snapshots and then dirties everything (B1)",
     design_ref="DESIGN.md §4 C11",
-    text="CtxFresh.tla tags every observable part of a ctx (request data, user values, response) with the request that wrote it and models acquisition from the pool, TimeoutHandler replacement, hijack/close release and late writes; TLC checks FreshCtx/PoolSafe/DispatchedExactly over all histories of <=3-4 requests of 9 kinds (GET+query+cookie, urlencoded POST, multipart, chunked, parse error, rejected expectation, timeout, hijack, handler close) over <=2-3 connections and prints each history. Replay: GOMAXPROCS(1) for maximal pool reuse, ReduceMemoryUsage and StreamRequestBody on/off; every handler snapshot (method, URI, ordered headers, cookies, body, query/post args, multipart form, user values, initial response) must equal exactly what was sent / a pristine response, every response must carry only its own marks, and the dispatched requests must be the specified ones.",
+    text="CtxFresh.tla tags every observable part of a ctx (request data, user values, response) with the request that wrote it and models acquisition from the pool, TimeoutHandler replacement, hijack/close release and late writes; TLC checks FreshCtx/PoolSafe/DispatchedExactly over all histories of <=3-4 requests of 12 kinds (GET+query+cookie, urlencoded POST, multipart, chunked, parse error, rejected expectation, timeout, hijack, handler close) over <=2-3 connections and prints each history. Replay: GOMAXPROCS(1) for maximal pool reuse, ReduceMemoryUsage and StreamRequestBody on/off; every handler snapshot (method, URI, ordered headers, cookies, body, query/post args, multipart form, user values, initial response) must equal exactly what was sent / a pristine response, every response must carry only its own marks, and the dispatched requests must be the specified ones.",
     note="Trusted: in-memory transport; sync.Pool reuse is maximised (single P) but not forced. The expected snapshot is the request as sent by the harness.",
 )
 
@@ -18,12 +18,17 @@ def run(ctx):
     if not seen:
         raise Infra("CtxFreshGen produced no behaviours")
     allb = list(seen.values())
-    if not ctx.quick and len(allb) > 6000:
+    if ctx.quick and len(allb) > 3500:
+        import random
+        random.Random(ctx.seed).shuffle(allb)
+        allb = allb[:3500]
+        ctx.exhaustive = False
+    elif not ctx.quick and len(allb) > 6000:
         import random
         random.Random(ctx.seed).shuffle(allb)
         allb = allb[:6000]
         ctx.exhaustive = False
-    else:
+    elif ctx.exhaustive is None:
         ctx.exhaustive = True
     p = os.path.join(ctx.scratch, "c11_beh.ndjson")
     with open(p, "w") as f:
@@ -33,4 +38,4 @@ def run(ctx):
     ctx.absorb(recs)
     ctx.traces_validated = ctx.evaluations
     ctx.rule = "one case = one request history (distinct after hiding ctx identities) x one (ReduceMemoryUsage, StreamRequestBody) setting; non-trivial = more than one request"
-    ctx.assumptions = ["9 request kinds", "histories of <= %d requests over <= %d connections" % shapes[0]]
+    ctx.assumptions = ["12 request kinds", "histories of <= %d requests over <= %d connections" % shapes[0]]
